@@ -1216,9 +1216,14 @@ def power_case(rng):
     prog.append(A("<p>q", rng.choice(flts)))
     prog.append(A("<p>r", rng.choice(flts)))
     prog.append(A("<p>s", S(V("<p>s"), PW(V("i"), I(2)), PW(PW(V("i"), I(2)), I(2))), [("i", I(0), I(3))]))
+    # a bare loop counter (a Fortran INTEGER) as base with negative exponents, i = 1..5: integer arithmetic would give
+    # i**(-2) = 0 for i >= 2; for contrast the same with the counter inside a product (real-kinded base)
+    prog.append(A("<p>h", S(V("<p>h"), PW(V("i"), I(-1)), PW(V("i"), I(-2))), [("i", I(1), I(6))]))
+    prog.append(A("<p>c", S(V("<p>c"), PW(P(I(2), V("i")), I(-1)), PW(P(I(2), V("i")), I(-2))), [("i", I(1), I(6))]))
     prog += [["if", ["bin", rng.choice(["gt", "le"]), rng.choice(ints), I(rng.choice([3, 8, 60]))]],
              A("<p>g", S(V("<p>g"), I(1))), ["endif"], ["else"], A("<p>g", S(V("<p>g"), I(10))), ["endelse"]]
-    init = {"<t>": 0, "<dt>": 1, "<p>x": rng.randint(-4, -1), "<p>z": 0, "<p>w": 0, "<p>q": 0, "<p>r": 0, "<p>s": 0, "<p>g": 0}
+    init = {"<t>": 0, "<dt>": 1, "<p>x": rng.randint(-4, -1), "<p>z": 0, "<p>w": 0, "<p>q": 0, "<p>r": 0, "<p>s": 0, "<p>g": 0,
+            "<p>h": 0, "<p>c": 0}
     return {"phases": [{"name": "pa", "next": "pa", "prog": prog}], "initial": "pa", "init": init, "nsteps": 4}
 
 
